@@ -87,6 +87,48 @@ Theorem C02_contains_exact : forall d t a du,
 Proof. exact contains_exact. Qed.
 Print Assumptions C02_contains_exact.
 
+(* ---- round 3: reads and return values that were only run before ---- *)
+
+(* triples() given a bare triple (no graph anywhere): with default_union the
+   merged view - every triple of every graph (and union-only triples, should a
+   store hold any) - otherwise the default graph, each filtered by the pattern *)
+Theorem C02_triples_plain : forall d p du t,
+  In t (snd (cg_triples d p CTriple None du)) <->
+  matches p t = true /\
+  (if du then (exists g, holds d g t) \/ In t (orphans (st d)) else holds d 0 t).
+Proof. exact triples_plain. Qed.
+Print Assumptions C02_triples_plain.
+
+(* quads() without a graph never looks at default_union (the model's quads has
+   no such parameter because the code does not read the flag there; the harness
+   runs it under both settings): it yields exactly the quads, each once *)
+Theorem C02_quads_all : forall d p,
+  (forall t g, In (t, g) (snd (cg_quads d p CTriple)) <-> holds d g t /\ matches p t = true)
+  /\ (NoDup (quads (st d)) -> NoDup (orphans (st d)) ->
+      (forall t, In t (orphans (st d)) -> forall g, ~ holds d g t) -> NoDup (snd (cg_quads d p CTriple))).
+Proof. intros d p. split; [intros t g; apply quads_all|apply quads_all_NoDup]. Qed.
+Print Assumptions C02_quads_all.
+
+(* graphs(triple) / contexts(triple): the graphs holding the triple; a Dataset
+   adds its default graph in any case; no quad is written *)
+Theorem C02_contexts_of_triple : forall d t,
+  (forall g, In g (snd (cg_contexts_of d t)) <-> holds d g t \/ (is_ds d = true /\ g = 0))
+  /\ quads (st (fst (cg_contexts_of d t))) = quads (st d).
+Proof. intros d t. split; [intros g; apply contexts_of_triple|apply contexts_of_no_quad_write]. Qed.
+Print Assumptions C02_contexts_of_triple.
+
+(* graph()/add_graph(): the graph handed back is listed afterwards, and the
+   only triples that appear are those of a Graph object of another store given
+   as the argument, in the graph of its name *)
+Theorem C02_graph_returns : forall d oa,
+  In (ds_graph_name d oa) (known (st (ds_graph d oa)))
+  /\ (forall a, oa = Some a -> forall g t,
+        holds (ds_graph d oa) g t <-> holds d g t \/ (g = arg_name a /\ In t (arg_content a))).
+Proof.
+  intros d oa. split; [apply graph_returns_listed|]. intros a -> g t. apply graph_holds.
+Qed.
+Print Assumptions C02_graph_returns.
+
 (* the expression the code had before the "fix:" commit for F1 did fall back *)
 Theorem C02_hist_context_or_c_refuted :
   exists d g, (forall t, ~ holds d g t) /\ snd (cg_triples_hist d pall CTriple (Some (GView g)) false) <> [].
@@ -186,9 +228,10 @@ Example C02_nonvacuous :
                         OQuads pall (CQuad (Some (GId 3)));
                         ORemoveGraph (Some (GView 3)); OContains (pat_of (1, 3, 5)) (CQuad (Some (GId 3))) false;
                         OTriples pall CTriple (Some (GForeign 2 [(7, 3, 7)])) false;
-                        ORemove pall (CQuad (Some (GForeign 1 [(7, 3, 7)])))] |} in
-  kf c = 0 /\ length (model_obs c) = 12%nat
-  /\ exists s, nth_error (model_obs c) 3 = Some (RNone, s) /\ o_graphs s = [1; 0; 3; 2]
+                        ORemove pall (CQuad (Some (GForeign 1 [(7, 3, 7)])));
+                        OContexts (9, 3, 9)] |} in
+  kf c = 0 /\ length (model_obs c) = 13%nat
+  /\ exists s, nth_error (model_obs c) 3 = Some (RNames [2], s) /\ o_graphs s = [1; 0; 3; 2]
                /\ o_views s = [(0, []); (1, [(1, 3, 5)]); (3, [(1, 3, 5); (2, 3, 1)]); (2, [])].
 Proof.
   cbv zeta. split; [vm_compute; reflexivity|]. split; [vm_compute; reflexivity|].
